@@ -154,7 +154,7 @@ def run_lerp(_case=None):
     finally:
         c.cleanup()
 
-case = ('chain', 10, 30, '2', True)
+case = ('chain', 1, 5.0, '0.1', False)
 bad = run(case)
 print("case:", case)
 print("FAIL: " + bad if bad else "PASS")
